@@ -150,27 +150,44 @@ def removeQuotationMarks (p : Str) : Str := p.filter (· != '"')
     `path = Path::removeQuotationMarks(path); path = Path::fromNativeSeparators(path);` -/
 def normalizeIgnored (p : Str) : Str := fromNativeSeparators (removeQuotationMarks p)
 
-/-- the argument loop restricted to `-i <str>`, `-i<str>` and path names (`argv[1..]`): the `-i` values as written
-    (empty ones are dropped) and the path names; `none` = `Result::Fail` ("argument to '-i' is missing") or an
-    option outside this model -/
-def splitArgs : List Str → Option (List Str × List Str)
-  | [] => some ([], [])
+/-- the options of this model as the user wrote them -/
+structure CliArgs where
+  /-- the `-i` values (empty ones are dropped by the loop) -/
+  ignored : List Str
+  /-- the `--file-filter=` values -/
+  filters : List Str
+  /-- the path names -/
+  paths : List Str
+  deriving Repr, DecidableEq
+
+def fileFilterPrefix : Str := "--file-filter=".toList
+
+/-- the argument loop restricted to `-i <str>`, `-i<str>`, `--file-filter=<str>` and path names (`argv[1..]`), values as
+    written; `none` = `Result::Fail` ("argument to '-i' is missing") or an option outside this model (also
+    `--file-filter=-` = read from stdin and `--file-filter=+` = use the path names as filters) -/
+def splitArgs : List Str → Option CliArgs
+  | [] => some ⟨[], [], []⟩
   | a :: rest =>
-    if hd a != '-' then (splitArgs rest).map (fun r => (r.1, normalizeIgnored a :: r.2))
+    if hd a != '-' then (splitArgs rest).map (fun r => { r with paths := a :: r.paths })
     else if a == ['-', 'i'] then
       match rest with
       | [] => none
       | v :: rest' =>
         if hd v == '-' then none
-        else (splitArgs rest').map (fun r => (if v.isEmpty then r.1 else v :: r.1, r.2))
-    else if ['-', 'i'].isPrefixOf a then (splitArgs rest).map (fun r => (a.drop 2 :: r.1, r.2))
+        else (splitArgs rest').map (fun r => if v.isEmpty then r else { r with ignored := v :: r.ignored })
+    else if ['-', 'i'].isPrefixOf a then (splitArgs rest).map (fun r => { r with ignored := a.drop 2 :: r.ignored })
+    else if fileFilterPrefix.isPrefixOf a then
+      let f := a.drop 14
+      if f == ['-'] || f == ['+'] then none
+      else (splitArgs rest).map (fun r => { r with filters := f :: r.filters })
     else none
 
-/-- `mIgnoredPaths` / `mPathNames` after `parseFromArgs`; `none`: `Result::Fail` (also "no C or C++ source files found") -/
-def parseIgnoreArgs (args : List Str) : Option (List Str × List Str) :=
+/-- `mIgnoredPaths`, `mSettings.fileFilters`, `mPathNames` after `parseFromArgs`: the `-i` values and the path names
+    normalised, the filters verbatim; `none`: `Result::Fail` (also "no C or C++ source files found") -/
+def parseIgnoreArgs (args : List Str) : Option (List Str × List Str × List Str) :=
   match splitArgs args with
   | none => none
-  | some (ig, pn) => if pn.isEmpty then none else some (ig.map normalizeIgnored, pn)
+  | some a => if a.paths.isEmpty then none else some (a.ignored.map normalizeIgnored, a.filters, a.paths.map normalizeIgnored)
 
 /-! ### the documented rule for an ignore pattern as the user wrote it -/
 
@@ -197,20 +214,51 @@ def canonPatternU (q cwd : Str) : Str :=
 def UserIgnoreSpec (mode : Filemode) (u path cwd : Str) : Prop :=
   let q := removeQuotationMarks u
   q ≠ [] ∧
-    (((dirPatternU q && mode != .directory) = false ∧ fromNativeSeparators q = path) ∨
      SpecMatch (absoluteU q || relativeU q) (canonPatternU q cwd)
-      (if dirPatternU q && mode != .directory then parentOf (canonPath .unix path cwd) else canonPath .unix path cwd))
+      (if dirPatternU q && mode != .directory then parentOf (canonPath .unix path cwd) else canonPath .unix path cwd)
 
 /-- executable form -/
 def userIgnoreSpecB (mode : Filemode) (u path cwd : Str) : Bool :=
   let q := removeQuotationMarks u
   !q.isEmpty &&
-    ((!(dirPatternU q && mode != .directory) && fromNativeSeparators q == path) ||
      specMatchB (absoluteU q || relativeU q) (canonPatternU q cwd)
-      (if dirPatternU q && mode != .directory then parentOf (canonPath .unix path cwd) else canonPath .unix path cwd))
+      (if dirPatternU q && mode != .directory then parentOf (canonPath .unix path cwd) else canonPath .unix path cwd)
 
 /-- the ignore test `cppcheck -i u₁ -i u₂ … <paths>` applies during the traversal (current directory `cwd`) -/
 def cliIgnored (us : List Str) (cwd : Str) (path : Str) (mode : Filemode) : Bool :=
   pathMatchList .fixed .unix (us.map normalizeIgnored) cwd path mode
+
+/-- `CmdLineParser::filterFiles`: `PathMatch filtermatcher(fileFilters, cwd); copy_if(… filtermatcher.match(entry.path()))` -/
+def filterFiles (ffs : List Str) (cwd : Str) (files : List (Str × Lang)) : List (Str × Lang) :=
+  files.filter (fun f => pathMatchList .fixed .unix ffs cwd f.1 .regular)
+
+/-- "de-duplicate files": every later entry with the same key as an earlier one is erased (first occurrence stays) -/
+def dedupBy (key : Str → Str) : List (Str × Lang) → List (Str × Lang)
+  | [] => []
+  | x :: r => x :: (dedupBy key r).filter (fun y => key y.1 != key x.1)
+
+/-- `FileWithDetails::abspath()` for an existing file below the absolute current directory, no symbolic links -/
+def absKey (cwd path : Str) : Str := canonPath .unix path cwd
+
+def mapSpath : List (Str × Lang) → Option (List Str)
+  | [] => some []
+  | f :: r =>
+    match simplifyPathO f.1, mapSpath r with
+    | some p, some ps => some (p :: ps)
+    | _, _ => none
+
+/-- the selection part of `fillSettingsFromArgs` for path names: list every path name, (optionally) filter, de-duplicate;
+    result: the `spath()`s in the order of `mFiles`; `none` = `false` is returned ("could not find or open any of the paths
+    given", "could not find any files matching the filter") or a limit of the model was hit -/
+def cliSelect (args : List Str) (cwd : Str) (resolve : Str → Option Tree) : Option (List Str) :=
+  match parseIgnoreArgs args with
+  | none => none
+  | some (ig, ffs, pn) =>
+    let resolved := pn.flatMap (fun p => (addFiles (pathMatchList .fixed .unix ig cwd) (acceptFile []) p (resolve p)).2)
+    if resolved.isEmpty then none
+    else
+      let files := if ffs.isEmpty then resolved else filterFiles ffs cwd resolved
+      if files.isEmpty then none
+      else mapSpath (dedupBy (absKey cwd) files)
 
 end Cppcheck.FileLister
